@@ -285,4 +285,7 @@ Example C36_parent_ex :
     set_parent (fun l => l) (asc "origin") (asc "git://h/r,branch=b")
                {| cfg_url := None; cfg_merge := [] |} = Ok cfg' /\
     get_parent_location (fun l => l) (asc "origin") cfg' = Ok (Some (asc "git://h/r,branch=b")).
-Proof. eexists. split; vm_compute; reflexivity. Qed.
+Proof.
+  exists {| cfg_url := Some (asc "git://h/r"); cfg_merge := [(asc "origin", asc "refs/heads/b")] |}.
+  split; vm_compute; reflexivity.
+Qed.
